@@ -16,7 +16,7 @@ CHECKS = {
          "Every classification method and accessor on all 2^21 valid triples x 3 implementations (generic code, method-call syntax on the concrete types, and &&, &mut, Box, Rc, Arc receivers), plus all 256 type bytes, compared with a table oracle written from the specification; every ordered pair of status bytes classified back to back on one thread (history independence); a message-layer transcript reproduced under Miri on i686 and s390x. Supplementary, labelled as sampling: 40 (400) processes x 16 free-running threads against the same table.",
          "Trusted: the harness's table oracle.", "4 C02"),
  "C03": (True, SWEEP, "bounded-exhaustive differential enumeration over 4 representations x all valid triples, plus re-feeding every explored scanner transition in each representation",
-         "All 20 trait methods and all 25 ordered conversions on every valid triple for Raw/Structured/three foreign implementors (one overrides to_bytes, one overrides from_bytes to be stricter, one refuses everything in from_bytes); a message-layer transcript reproduced under Miri on i686 and s390x; scanners re-fed with every representation at every state of their fixpoints.",
+         "All 20 trait methods and all 25 ordered conversions on every valid triple for Raw/Structured/three foreign implementors (one overrides to_bytes, one overrides from_bytes to be stricter, one refuses everything in from_bytes); every ordered pair of (status byte x 4 data combinations) taken through all of that back to back on one thread (history independence of the conversions); a message-layer transcript reproduced under Miri on i686 and s390x; scanners re-fed with every representation at every state of their fixpoints.",
          "'Any third-party type' is a quantifier over programs; instantiated with two implementors exercising the two documented extension points.", "4 C03"),
  "C04": (True, SWEEP, "bounded-exhaustive enumeration of conversion/constructor/parser inputs in two feature configurations and on a 32-bit target",
          "All ~150 conversions, `new`, FromStr and constants in configurations std and no-default-features: 8/16-bit and newtype sources complete, 32-bit complete in thorough, wider sources over a truncation alphabet; all 7-bit ASCII strings to length 3 (4) and every Unicode scalar alone / next to a digit; range audit of every message field over all triples and of every accessor of a third-party message whose status byte changes between reads; every numeral up to 1 100 000 and leading-zero paddings up to 300; conversions that do not exist on the pinned tree are probed and judged if they appear; the conversions once more with a 32-bit usize (harness_p32 interpreted by Miri for i686).",
